@@ -274,3 +274,109 @@ def c08(ctx):
     ctx.assumptions += ["expected bytes are xml.Marshal of the harness's own copy of the stanza / the raw string; the server compares them with the exact bytes of each top-level element it received",
                         "atomicity of a single transport Write call is the operating system's / crypto/tls's guarantee",
                         "gates only order the senders; they are never judged"]
+
+
+# ------------------------------------------------------------------ negotiation: C03 C04 C11 C14
+NEG_INV = ("C04_NoSecretInClear C03_WireOrder C03_AtMostOnceEach C03_SuccessNeedsSteps C11_ResumeOnlyWithId C11_ResumedMeansNoBind "
+           "C14_OnlyAdvertisedMech C14_MechMatchesCredential")
+
+
+def S(*xs):
+    return "{" + ", ".join('"%s"' % x for x in xs) + "}"
+
+
+def neg_cfg(configs, conns, f1, tlsr, certs, f2, authr, f3, resr, bindr, sessr, enr, mechs="MechPlain", emit=True):
+    return """SPECIFICATION Spec
+CONSTANTS
+  Configs <- %s
+  MaxConns = %d
+  F1s = %s
+  TlsRs = %s
+  Certs = %s
+  F2s = %s
+  AuthRs = %s
+  F3s = %s
+  ResRs = %s
+  BindRs = %s
+  SessRs = %s
+  EnRs = %s
+  MechLists <- %s
+  Emit = %s
+INVARIANTS %s %s
+CHECK_DEADLOCK FALSE
+""" % (configs, conns, f1, tlsr, certs, f2, authr, f3, resr, bindr, sessr, enr, mechs, "TRUE" if emit else "FALSE", NEG_INV, "EmitInv" if emit else "")
+
+
+def neg_check(ctx, gens, driver_args=()):
+    def full():
+        scen = []
+        for g in gens:
+            r = vlib.tlc_mc(ctx, "MC_Negotiation", "MC_Negotiation.cfg", cfgtext=neg_cfg(**g), timeout=1200)
+            scen += blines(r)
+        if not scen:
+            raise Infra("TLC emitted no behaviours")
+        ctx.exhaustive = True
+        # -lenient: after the scripted replies the server keeps answering any further request with success, as a real
+        # server would: a client that wrongly carries on shows what it would do (and a correct one is unaffected)
+        out, nev, _ = vlib.run_driver(ctx, "neg", scen=scen, args=["-lenient"] + list(driver_args), timeout=3000)
+        ctx.verdicts += vlib.tlc_trace(ctx, "TraceNegotiation", "Trace_Negotiation.cfg", out, nev, timeout=2400)
+    replay_or(ctx, "neg", "TraceNegotiation", "Trace_Negotiation.cfg", full)
+    ctx.assumptions += ["the scripted server replies only after it has read the request of the stage; elements are classified by name/namespace by the harness",
+                        "error texts, IQ ids and the Permanent flag (except for rejected credentials / no common mechanism) are not asserted",
+                        "in insecure mode both 'STARTTLS attempted' and 'not attempted' are accepted"]
+
+
+@check("C03")
+def c03(ctx):
+    q = ctx.tier == "quick"
+    allfail = dict(f1=S("tls", "notls", "bad", "close", "other"), tlsr=S("proceed", "failure", "other", "garbage", "close"),
+                   certs=S("valid", "untrusted"), f2=S("mech", "close"), authr=S("success", "successdata", "failure", "other", "garbage", "close"),
+                   f3=S("b", "bs", "bo", "bm", "bsm", "close"), resr=S("resumed"), bindr=S("result", "error", "errorecho", "other", "close"),
+                   sessr=S("result", "error", "close"), enr=S("enabled", "enablednoresume", "failed", "other", "close"))
+    gens = [dict(configs="CfgC03", conns=1, **allfail),
+            # a failed attempt must not poison the next one on the same client object
+            dict(configs="CfgC03two", conns=2, f1=S("notls", "close"), tlsr=S("proceed"), certs=S("valid"), f2=S("mech"),
+                 authr=S("success", "failure", "close"), f3=S("bm", "close"), resr=S("resumed", "failed", "other", "unknownel", "close"), bindr=S("result", "error", "close"),
+                 sessr=S("result"), enr=S("enabled", "failed", "close"))]
+    ctx.notes["bounds"] = "every server behaviour from the per-step alphabets (success variants, failure/error reply, unexpected element, malformed XML, closed) at each of the negotiation steps x {insecure, stream management} (one connection); resumption steps are C11's"
+    neg_check(ctx, gens)
+
+
+@check("C04")
+def c04(ctx):
+    q = ctx.tier == "quick"
+    gens = [dict(configs="CfgC04", conns=1, f1=S("tls", "tlsreq", "notls"), tlsr=S("proceed", "failure", "other", "garbage", "close"),
+                 certs=S("valid", "wronghost", "untrusted", "expired", "nottls"), f2=S("mech", "close"), authr=S("success", "failure"),
+                 f3=S("b"), resr=S("resumed"), bindr=S("result"), sessr=S("result"), enr=S("enabled")),
+            # the flags that record "this connection is secure" live in objects that are reused: 2 and 3 connections on one client
+            dict(configs="CfgC04multi", conns=2 if q else 3, f1=S("tls", "notls"), tlsr=S("proceed", "failure"),
+                 certs=S("valid", "untrusted"), f2=S("mech"), authr=S("success"),
+                 f3=S("b", "bm"), resr=S("resumed", "failed"), bindr=S("result"), sessr=S("result"), enr=S("enabled"))]
+    ctx.notes["bounds"] = "Insecure on/off x TLS config {none, CA, CA+ServerName, CA+other ServerName, InsecureSkipVerify} x STARTTLS {not offered, offered, required} x reply {proceed, failure, unexpected, garbage, close} x certificate {valid, wrong host, untrusted, expired, not TLS}; plus 2 (thorough 3) connections on one client object; after the scripted replies the server stays lenient (answers any further request with success) so that a confused client shows what it would send"
+    neg_check(ctx, gens)
+
+
+@check("C11")
+def c11(ctx):
+    q = ctx.tier == "quick"
+    base = dict(f1=S("notls"), tlsr=S("proceed"), certs=S("valid"), f2=S("mech"), authr=S("success"), bindr=S("result"), sessr=S("result"))
+    gens = [dict(configs="CfgC11", conns=3, f3=S("bm", "b"), resr=S("resumed", "resumedother", "failed", "faileditem", "other", "unknownel", "close"),
+                 enr=S("enabled", "enablednoresume"), **base)]
+    if not q:
+        gens.append(dict(configs="CfgC11b", conns=4, f3=S("bm", "b"), resr=S("resumed", "resumedother", "failed", "other"),
+                         enr=S("enabled", "enablednoresume", "failed"), **base))
+    ctx.notes["bounds"] = "all histories of %d connections on one client (Connect and Resume as reconnect entry points), stream management advertised or not on each, <enabled> with/without resumption, every reply to <resume/> {resumed same id, other id, failed, failed+item-not-found, unexpected, closed}, 0..2 stanzas received per session" % (3 if q else 4)
+    neg_check(ctx, gens)
+
+
+@check("C14")
+def c14(ctx):
+    q = ctx.tier == "quick"
+    gens = [dict(configs="CfgC14", conns=1, f1=S("notls"), tlsr=S("proceed"), certs=S("valid"), f2=S("mech"),
+                 authr=S("success", "successdata", "failure", "failuretext", "other", "garbage", "close"), f3=S("b"), resr=S("resumed"),
+                 bindr=S("result"), sessr=S("result"), enr=S("enabled"), mechs="MechAll"),
+            # mechanism lists change between connections of one client
+            dict(configs="CfgC14", conns=2, f1=S("notls"), tlsr=S("proceed"), certs=S("valid"), f2=S("mech"),
+                 authr=S("success"), f3=S("b"), resr=S("resumed"), bindr=S("result"), sessr=S("result"), enr=S("enabled"), mechs="MechAll")]
+    ctx.notes["bounds"] = "both credential kinds x 11 server mechanism lists (empty, unknown only, duplicates, both orders, wrong case) x every reply to <auth/>; two connections with independent lists; user names and secrets from byte classes (NUL-adjacent, non-ASCII, XML metacharacters, leading/trailing whitespace, long)"
+    neg_check(ctx, gens, driver_args=["-creds"])
